@@ -513,6 +513,40 @@ Example C04_decoder_pair_sound_applies :
   In ("Did"%string, 771) (fst (parse_txt ex_image)) /\ snd (parse_txt ex_image) = None.
 Proof. exact pair_sound_applies. Qed.
 
+(** Full images (0x8f8 bytes and more): [ParseTXTRegs] succeeds and reports every slot with the
+    value of its own bytes; BOTH decoders report the paired fields, with equal values — no
+    premise about what they report is left. *)
+Theorem C04_parse_txt_full : forall img, (2296 <= length img)%nat ->
+  snd (parse_txt img) = None /\
+  fst (parse_txt img) = map (fun e => (e_id e, le_at img (e_off e) (e_len e))) parse_layout.
+Proof. exact parse_txt_full. Qed.
+Print Assumptions C04_parse_txt_full.
+
+Theorem C04_decoders_agree_full : forall specs accs ta ra slot id soff sn roff rn,
+  pair_ok specs accs (ta, ra, slot, id) = true ->
+  In (slot, soff, sn) parse_layout -> In (id, roff, rn) txt_layout ->
+  exists at_ ar, find_accessor ta accs = Some at_ /\ find_accessor ra accs = Some ar /\
+  forall img, (2296 <= length img)%nat -> (forall b, In b img -> b < 256) ->
+    exists v w, In (slot, v) (fst (parse_txt img)) /\ In (id, w) (fst (read_txt img)) /\
+                got_at (a_val at_) v = got_at (a_val ar) w.
+Proof. exact decoders_agree_full. Qed.
+Print Assumptions C04_decoders_agree_full.
+
+Theorem C04_decoders_agree_raw_full : forall specs accs slot id k ra soff sn roff rn,
+  raw_pair_ok specs accs (slot, id, k, ra) = true ->
+  In (slot, soff, sn) parse_layout -> In (id, roff, rn) txt_layout ->
+  exists ar, find_accessor ra accs = Some ar /\
+  forall img, (2296 <= length img)%nat -> (forall b, In b img -> b < 256) ->
+    exists v w, In (slot, v) (fst (parse_txt img)) /\ In (id, w) (fst (read_txt img)) /\
+                got_at (a_val ar) w = v.
+Proof. exact decoders_agree_raw_full. Qed.
+Print Assumptions C04_decoders_agree_raw_full.
+
+Example C04_decoders_agree_full_applies :
+  In ("Ests"%string, 8, 1)%nat parse_layout /\ In ("TXT.ESTS"%string, 8, 1)%nat txt_layout /\
+  In ("Did"%string, 274, 2)%nat parse_layout /\ In ("TXT.DIDVID"%string, 272, 8)%nat txt_layout.
+Proof. exact decoders_agree_full_applies. Qed.
+
 (** every decoder of pkg/tools is such a chain [L] *)
 Theorem C04_tools_decoders_are_chains : forall which lay flds,
   tools_decoder which = Some (lay, flds) -> incl lay all_tools_slots.
